@@ -107,6 +107,11 @@ def shard(ctx):
     if race_guard(ctx, out, "field types"):
         rc = 0
     ctx.process(recs, out, rc, "TestVerifConcFieldTypes")
+    recs, out, rc = ctx.go_test("tsdb", files, "^TestVerifConcNewFields$", race=True, timeout=1800, label="newfields-race",
+                                env={"VERIF_ROUNDS": ctx.pick(60, 600)})
+    if race_guard(ctx, out, "new fields"):
+        rc = 0
+    ctx.process(recs, out, rc, "TestVerifConcNewFields")
 
 def validate_vis(ctx, sd, files):
     consts = {"Series": ['"s1"', '"s2"', '"s3"'], "MaxK": 100000, "Readers": ['"r1"', '"r2"']}
